@@ -54,6 +54,15 @@ CLAIMED = {
    note='Trusted: Verus+Z3, vstd. Requires img0 != 0 (0 is the code\'s unassigned marker). Not decided: totality/bijectivity of the map (needs connectivity = '
         'Traversal), fold, is_minimal, minimal_image (congruence closure over the union-find), covers vs minimal images.',
    ref='5 C04', technique=TECH),
+ 'C11': dict(
+   text='Unbounded proof (Verus/Z3) over the real bodies of CosetTable::{new, len, canon, get, set, join}, scan, scan_inverse, scan_both_ways and '
+        'coset_representative: for every complete table in which inverse generators undo generators, every (row, word) returned traces from row 0 '
+        'to that row; get/set/join are specified against the abstract action with whole-table frames; the scans trace exactly the prefix they report.',
+   note='Trusted: Verus+Z3, vstd, VecDeque/BTreeMap::from specs; all_gens (iterator expression) by its std semantics; FreeWord and IntPartition by the '
+        'contracts proved in units free_words / partitions (run as dependencies). NOT decided: that coset_table returns THE coset table of H in G '
+        '(row count = index, relators close, subgroup generators fix row 0): Todd-Coxeter correctness has no inductive invariant within reach; '
+        'merge/compact are not under contract.',
+   ref='5 C11', technique=TECH),
 }
 
 NA = {
